@@ -27,6 +27,10 @@ CHECKS = {
    "Reference-model oracle for <pre>: tab expansion to 8-column stops, line-for-line reproduction when every line fits, per-source-line character conservation / contiguity / piece width otherwise, Preformat(false/true) tags in rich output. One identifying letter per source line makes loss, duplication, reordering and merging of lines countable.",
    "Trusted: the reference model; only line-trailing whitespace may differ; continuation tags of over-long lines containing whitespace are a known finding and not asserted.",
    "property-based testing (proptest) against a reference model of preformatted layout"),
+ "C15": ("exploration",
+   "Metamorphic relations between render(d,w,base) and render(d,w,base+o) for each of nine options (identity when the option does not apply; width bound beyond the prefix for max_wrap_width; right-trim equality for padding; U+0336 deletion for strikeout; no box characters and same text for no_table_borders/raw_mode; no [k] and same text for link_footnotes(false); same body and unbroken entries for no_link_wrapping; same text and only `*`/backquote added for do_decorate).",
+   "Trusted: identifying characters and digit-only link targets separate text from markup; the prefix parser over-approximates; blank <pre> under padding is a known finding.",
+   "property-based testing (proptest; one metamorphic relation per option)"),
  "C13": ("exploration",
    "Metamorphic: a table-free, pre-free grammar document and a source-level rewrite of it (whitespace-run substitution, adjacent comments, layout whitespace between block tags, span wrapping) must render byte-identically at every width when both render.",
    "Trusted: the rewriter only produces the rewrites the property names; Ok/TooNarrow disparity is counted, not asserted.",
